@@ -502,6 +502,9 @@ func runC14(c C14Case) ev.Outcome {
 		if d := aliasChecks(c); d != "" {
 			return ev.Failf("%s", d)
 		}
+		if d := scribbleChecks(c); d != "" {
+			return ev.Failf("%s", d)
+		}
 	}
 	return o
 }
